@@ -28,6 +28,7 @@ def cases(tier):
     cs.append(dict(name="graph_extended_in_place_between_calls", fn="extended", args={}, weight=2))
     for side in ("tasks_explicit", "shared_explicit"):
         cs.append(dict(name=f"mtl_mixed_{side}", fn="mtl_mixed", args=dict(side=side), weight=2))
+    cs.append(dict(name="discovery_walk_is_linear", fn="walk", args={}, weight=1))
     return cs
 
 
@@ -264,3 +265,26 @@ def case_mtl_mixed(sp, side):
         ga, gb = grad_list(pa[n]), grad_list(pb[n])
         obs.append(Ob("half_defaulted_call_equals_its_explicit_twin", (ga is None and gb is None) or (ga is not None and gb is not None and eq_all(ga, gb)), cex))
     return obs
+
+
+def case_walk(sp):
+    """'behaves exactly as if inputs were given' includes returning: on k stacked diamonds (h' = f(h, g(h))) the number of paths from the output to the
+    leaf is 2^k, so a discovery that does not mark visited nodes does not terminate in practice.  Counted in the model: reads of `next_functions`
+    during the discovery are at most 4 x (number of graph nodes + 1), for k = 2..14 (2^k for a walk without visited marks)."""
+    from torch.autograd.graph import Node
+    k = 2 + choice(13, "depth")
+    leaves = [("p", (2,), True)]
+    ops, prev = [], "p"
+    for i in range(k):
+        ops.append(dict(name=f"g{i}", inputs=[prev], outs=[(f"u{i}", (2,))], deps={(0, 0)}))
+        ops.append(dict(name=f"f{i}", inputs=[prev, f"u{i}"], outs=[(f"h{i}", (2,))], deps={(0, 0), (0, 1)}))
+        prev = f"h{i}"
+    spec = dict(leaves=leaves, ops=ops)
+    prog = Prog(spec)
+    Node.NF_READS = 0
+    found = {t._name for t in _get_leaf_tensors([prog[prev]], excluded=[])}
+    reads = Node.NF_READS
+    nodes = len(ops) + len(leaves)
+    def cex(model=None):
+        return dict(kind="walk_complexity", depth=k, reads=reads, nodes=nodes)
+    return [Ob("discovery_finds_the_leaf", found == {"p"}, cex), Ob("discovery_reads_each_node_a_bounded_number_of_times", reads <= 4 * nodes + 4, cex)]
